@@ -9,6 +9,7 @@ fn main() {
     match argv[1].as_str() {
         "c11" => pv::c11::run(&args),
         "c09" => pv::c09::run(&args),
+        "c13" => pv::c13::run(&args),
         other => {
             eprintln!("unknown runner {other}");
             std::process::exit(2);
